@@ -438,6 +438,9 @@ DoFail(s, fp, fg) ==
 \* what the engine serves when the listed shards cannot be read (their blob reads fail)
 Without(W, S) == [W EXCEPT !.fget = [s \in Shards |-> W.fget[s] \/ s \in S]]
 
+\* IsLocked answers "e" (error) when it meets a degraded shard before a shard with the lock: that is "unknown", not a status
+LockChanged(a, b) == a # "e" /\ b # "e" /\ a # b
+
 DoEvacuate(q, ign, fh) ==
   /\ InFlight = {}
   /\ LET W0 == Cur
@@ -454,7 +457,7 @@ DoEvacuate(q, ign, fh) ==
                  ELSE [on |-> TRUE,
                        lost |-> {x \in avail \ SeqToSet(r.handled) : remo[x] # "ok"},
                        changed |-> {x \in Regs : EngineGet(W0, x) # EngineGet(W1, x)
-                                                  \/ EngineIsLocked(W0, x, IdPerm) # EngineIsLocked(W1, x, IdPerm)},
+                                                  \/ LockChanged(EngineIsLocked(W0, x, IdPerm), EngineIsLocked(W1, x, IdPerm))},
                        srcs |-> srcs]
   /\ UNCHANGED <<cat, mode, fput, fget, epoch, gcDone, ops, prot, rem, rbm, ptl>>
 
